@@ -280,6 +280,39 @@ def _expr_dict(interp, **kw):
     return d
 
 
+def searcher_self(ctx, interp, q, **fields):
+    """`self` of a Searcher method in a scenario: the given fields, and for any other field the value its initialiser in the
+    struct literal of Searcher::new has when `new` is given the scenario's query (other parameters unknown)"""
+    NEW = "searcher::Searcher::new"
+    me = interp.CtorSelf(dict(fields, query=q))
+    h = ctx.prog.hir(NEW) if NEW in ctx.prog.fns else None
+    if h is None:
+        return me
+    lit = [x for x in walk_exprs(h) if x["k"] == "Struct" and str(x.get("res", "")).endswith("searcher::Searcher")]
+    if len(lit) != 1:
+        return me
+    env = {}
+    import norm
+    tys = norm.param_types(ctx.prog.fns[NEW].get("sig"))
+    for i_, p_ in enumerate(ctx.prog.fns[NEW]["params"]):
+        env[p_["id"]] = q if i_ < len(tys) and tys[i_].lstrip("&").strip() == "query::Query" else interp.Opaque(p_.get("name") or "?")
+    inits = {f["name"]: f["e"] for f in lit[0]["fields"]}
+
+    def init(name):
+        if name not in inits:
+            return None
+        it = interp.Interp(prog=ctx.prog, max_steps=20000)
+        # the statements before the literal (locals the initialisers use) are run first; what they cannot decide stays unknown
+        env2 = dict(env)
+        try:
+            it.run_until(h, lit[0], env2) if hasattr(it, "run_until") else None
+        except interp.Undecided:
+            pass
+        return (it.ev(inits[name], env2),)
+    me.init = init
+    return me
+
+
 def buffering_predicates(ctx):
     """is_buffered = ordered or aggregate; the recursive expression predicates look at every child.  The predicates are
     evaluated (finite interpreter, crate calls interpreted) on queries whose select list holds an aggregate at the root, in
@@ -309,7 +342,7 @@ def buffering_predicates(ctx):
                 q = {"fields": fields, "ordering_fields": [plain()] if ordered else [], "ordering_asc": [True] if ordered else [], "grouping_fields": [],
                      "roots": [], "expr": interp.NONE, "limit": 0}
                 try:
-                    got = interp.Interp(prog=ctx.prog, max_steps=20000).run(ib, {ps[0]["id"]: {"query": q}})
+                    got = interp.Interp(prog=ctx.prog, max_steps=20000).run(ib, {ps[0]["id"]: searcher_self(ctx, interp, q)})
                 except interp.Undecided as e:
                     bad = ("unreadable", "cannot evaluate is_buffered: %s" % e)
                     break
